@@ -227,7 +227,10 @@ func c13(r *core.Report) {
 // interrupts blocking I/O when the caller's context is cancelled:
 // context.AfterFunc(ctx, …), or a `go` literal that selects on ctx.Done().
 func hasCancelWatcher(fn, root *ssa.Function) bool {
-	for _, f := range []*ssa.Function{fn, root} {
+	// the watcher may be registered in the root, in a literal of the root that runs the I/O
+	// (quicswarm: the withSession callback), or in the function that blocks
+	cands := append([]*ssa.Function{fn}, core.WithAnons(root)...)
+	for _, f := range cands {
 		for _, in := range core.AllInstrs(f) {
 			switch x := in.(type) {
 			case *ssa.Call:
